@@ -1,5 +1,6 @@
 import DelbModel.Model.Codec
 import DelbModel.Lemmas.Codec
+import DelbModel.Props.C12
 /-!
 # C12, byte level — the bytes `Document.write` produces decode to the text that was serialized
 
@@ -322,5 +323,119 @@ example : decodeUtf16 false [0x61] = none := by decide           -- odd length
 example : writeBytes .utf16 (some ['\r', '\n']) "é\n".toList = some [0xFF, 0xFE, 0xE9, 0, 0x0D, 0, 0x0A, 0] := by
   decide
 example : readBytes .utf16 [0xFF, 0xFE, 0xE9, 0, 0x0D, 0, 0x0A, 0] = some "é\n".toList := by decide
+
+/-! ## the character level (`Props/C12.lean`) and the byte level together -/
+
+section Document
+open Delb.Doc
+
+/-- the bytes `Document.write` produces for a whole document decode to the serialized text, and that
+    text reads back as the same label, prologue, root string and epilogue -/
+theorem c12_document_bytes_roundtrip (formatted : Bool) (encoding : String) (d : Document) (rootStr : Str)
+    (hw : WellFormed d) (c : Codec) (nl : Option Str) (hnl : nl ∈ newlineOptions) (b : List Nat)
+    (hcr : '\r' ∉ renderDoc (docPieces formatted encoding d rootStr))
+    (hb : writeBytes c nl (renderDoc (docPieces formatted encoding d rootStr)) = some b) :
+    readBytes c b = some (renderDoc (docPieces formatted encoding d rootStr)) ∧
+    readDoc (docPieces formatted encoding d rootStr)
+      = some (upper encoding, d.prologue, rootStr, d.epilogue) :=
+  ⟨c12_write_read c nl _ b hnl hcr hb, c12_read_back formatted encoding d rootStr hw⟩
+
+theorem replaceLf_of_no_lf (w : Str) : ∀ (p : Str), '\n' ∉ p → replaceLf w p = p
+  | [], _ => rfl
+  | ch :: p, h => by
+    have hc : ch ≠ '\n' := fun e => h (e ▸ List.mem_cons_self ..)
+    rw [replaceLf_cons, if_neg hc, replaceLf_of_no_lf w p (fun hm => h (List.mem_cons_of_mem _ hm))]
+    rfl
+
+/-- the newline translation leaves a prefix without line feed alone -/
+theorem translateNewlines_prefix (nl : Option Str) (p s : Str) (hp : '\n' ∉ p) :
+    translateNewlines nl (p ++ s) = p ++ translateNewlines nl s := by
+  have key : ∀ w : Str, replaceLf w (p ++ s) = p ++ replaceLf w s := by
+    intro w
+    have := replaceLf_of_no_lf w p hp
+    simp only [replaceLf, List.flatMap_append] at this ⊢
+    rw [this]
+  rcases nl with _ | _ | ⟨x, w⟩
+  · exact key _
+  · rfl
+  · exact key _
+
+theorem upperAscii_ascii (ch : Char) (h : ch.toNat < 0x80) : (upperAscii ch).toNat < 0x80 := by
+  unfold upperAscii
+  split
+  · rw [toNat_ofNat_valid _ (by omega)]; omega
+  · exact h
+
+theorem upperAscii_ne_lf (ch : Char) (h : ch ≠ '\n') : upperAscii ch ≠ '\n' := by
+  unfold upperAscii
+  split
+  · rename_i hr
+    have h1 : 'a'.toNat ≤ ch.toNat := hr.1
+    have h2 : ch.toNat ≤ 'z'.toNat := hr.2
+    have ha : 'a'.toNat = 97 := rfl
+    have hz : 'z'.toNat = 122 := rfl
+    intro e
+    have := congrArg Char.toNat e
+    rw [toNat_ofNat_valid _ (by omega)] at this
+    have hn : '\n'.toNat = 10 := rfl
+    omega
+  · exact h
+
+/-- the declaration as `__serialize` writes it for the label `encoding` -/
+def declaration (encoding : String) : Str :=
+  ("<?xml version=\"1.0\" encoding=\"" ++ upper encoding ++ "\"?>").toList
+
+/-- for the ASCII compatible codecs and an ASCII label the file starts with the code points of the
+    XML declaration, byte for byte, under every newline option: a reader can find the label before
+    it knows the encoding -/
+theorem c12_document_bytes_start_with_declaration (formatted : Bool) (encoding : String) (d : Document)
+    (rootStr : Str) (c : Codec) (hc : c = .utf8 ∨ c = .latin1 ∨ c = .ascii) (nl : Option Str)
+    (hascii : ∀ ch ∈ encoding.toList, ch.toNat < 0x80) (hlf : '\n' ∉ encoding.toList) (b : List Nat)
+    (hb : writeBytes c nl (renderDoc (docPieces formatted encoding d rootStr)) = some b) :
+    ∃ rest, b = (declaration encoding).map Char.toNat ++ rest := by
+  obtain ⟨_, rest, hr⟩ := c12_declaration_first formatted encoding d rootStr
+  have hdecl : declaration encoding
+      = "<?xml version=\"1.0\" encoding=\"".toList ++ (encoding.toList.map upperAscii ++ "\"?>".toList) := by
+    simp only [declaration, upper, String.toList_append, String.toList_ofList, List.append_assoc]
+  have hp : ∀ ch ∈ declaration encoding, ch.toNat < 0x80 := by
+    intro ch hch
+    rw [hdecl] at hch
+    simp only [List.mem_append, List.mem_map] at hch
+    rcases hch with h | ⟨x, hx, rfl⟩ | h
+    · revert ch; decide
+    · exact upperAscii_ascii x (hascii x hx)
+    · revert ch; decide
+  have hn : '\n' ∉ declaration encoding := by
+    intro hch
+    rw [hdecl] at hch
+    simp only [List.mem_append, List.mem_map] at hch
+    rcases hch with h | ⟨x, hx, hxe⟩ | h
+    · revert h; decide
+    · exact upperAscii_ne_lf x (fun e => hlf (e ▸ hx)) hxe
+    · revert h; decide
+  rw [hr] at hb
+  change writeBytes c nl (declaration encoding ++ rest) = some b at hb
+  rw [writeBytes, translateNewlines_prefix nl _ _ hn] at hb
+  obtain ⟨b', _, hb'⟩ := c12_ascii_prefix_transparent c hc _ _ hp b hb
+  exact ⟨b', hb'⟩
+
+/-- a small document: one comment in the prologue, root `<r/>` -/
+def exampleDoc : Document := { prologue := [.comment ['c']], root := .tag "" "r" [] [], epilogue := [] }
+
+def exampleText : Str := renderDoc (docPieces true "utf-8" exampleDoc "<r/>".toList)
+
+-- written with the formatting serializer as utf-8 with `newline="\r\n"`: the separators arrive as
+-- CR LF and are read back as line feeds; the pieces read back as the document
+example : exampleText = "<?xml version=\"1.0\" encoding=\"UTF-8\"?>\n<!--c-->\n<r/>".toList := by decide
+example : writeBytes .utf8 (some ['\r', '\n']) exampleText
+    = some ("<?xml version=\"1.0\" encoding=\"UTF-8\"?>\r\n<!--c-->\r\n<r/>".toList.map Char.toNat) := by
+  decide
+example : (writeBytes .utf8 (some ['\r', '\n']) exampleText).bind (readBytes .utf8) = some exampleText := by
+  decide
+example : readDoc (docPieces true "utf-8" exampleDoc "<r/>".toList)
+    = some ("UTF-8", exampleDoc.prologue, "<r/>".toList, exampleDoc.epilogue) := by
+  rfl
+
+end Document
 
 end Delb.Codec
